@@ -44,6 +44,16 @@ class SReal(Sym):
         self.t = t
 
 
+class SFloat(Sym):
+    """A Python float with IEEE-754 binary64 semantics (z3 FP sort): sign of zero, NaN, == vs bits."""
+
+    def __init__(self, t):
+        self.t = t
+
+
+FP64 = z3.Float64()
+
+
 class SStr(Sym):
     def __init__(self, t):
         self.t = t
@@ -199,7 +209,7 @@ def term(v):
     if isinstance(v, bool):
         return z3.BoolVal(v)
     if isinstance(v, int):
-        return z3.IntVal(v)
+        return z3.IntVal(int(v))
     if isinstance(v, str):
         return z3.StringVal(v)
     if isinstance(v, float):
